@@ -89,6 +89,9 @@ def parse_errors(stderr, gen, fname):
             und.append(head + (' @gen:%d (%s)' % (ln, _fn_at(lines, ln)) if ln else ''))
             continue
         if kind is None:
+            reg = _region_at(gen, ln)
+            if reg and reg[0] == 'extract':
+                gen.setdefault('compile_error_fns', set()).add(reg[1])
             und.append('verifier/compile error: ' + head + (' @gen:%d: %s' % (ln, lines[ln - 1].strip() if 0 < ln <= len(lines) else '')))
             continue
         reg = _region_at(gen, ln)
@@ -108,11 +111,11 @@ def parse_errors(stderr, gen, fname):
     return out, und
 
 
-def run_unit(unit, mode=None, canary=None, rlimit=30, threads=8, lenient=False):
+def run_unit(unit, mode=None, canary=None, rlimit=30, threads=8, lenient=False, drop_hints_for=()):
     res = UnitResult(unit)
     t0 = time.time()
     try:
-        gen = unitgen.generate(unit, mode=mode, canary=canary, lenient=lenient)
+        gen = unitgen.generate(unit, mode=mode, canary=canary, lenient=lenient, drop_hints_for=drop_hints_for)
     except (LostAnchor, unitgen.TemplateError) as e:
         res.status = 'undecided'
         res.reason = 'lost anchor: %s' % e
@@ -121,7 +124,7 @@ def run_unit(unit, mode=None, canary=None, rlimit=30, threads=8, lenient=False):
     gen['unit'] = unit
     res.gen = gen
     os.makedirs(BUILD, exist_ok=True)
-    suffix = ('__' + mode if mode else '') + ('__canary_' + canary if canary else '') + ('__lenient' if lenient else '')
+    suffix = ('__' + mode if mode else '') + ('__canary_' + canary if canary else '') + ('__lenient' if lenient is True else ('__nohints' if lenient else '')) + ('__drop' if drop_hints_for else '')
     path = os.path.join(BUILD, unit + suffix + '.rs')
     with open(path, 'w') as f:
         f.write(gen['text'])
